@@ -107,6 +107,15 @@ func runTwinAssignClause(c *core.Check, rule string, pkgs []*packages.Package) {
 	c.PassTrivial(rule, "twin-assign:inventory", token.NoPos, fmt.Sprintf("%d pairs of twin assignments", n))
 }
 
+func runPermutedClause(c *core.Check, rule string, pkgs []*packages.Package) {
+	c.Rule(rule, "the two arms of a direction switch that consist of the same steps have them in the same order")
+	issues, n := permutedArmIssues(c.P, pkgs)
+	for _, is := range issues {
+		c.Fail(rule, is.Key, is.Pos, "the else arm consists of the same statements as the then arm (up to identifiers) in another order (first difference at "+is.Text+"): one arm reads a value before the step that sets it, e.g. advances the cursor by a cell's old height")
+	}
+	c.PassTrivial(rule, "permuted:inventory", token.NoPos, fmt.Sprintf("%d if/else statements whose arms are the same steps, all in the same order", n))
+}
+
 func runBoundsClause(c *core.Check, rule string, pkgs []*packages.Package, floor int) {
 	issues, nacc, nupd := runningBoundIssues(c.P, pkgs)
 	for _, m := range issues {
@@ -133,6 +142,7 @@ func init() {
 			runAxisClause(c, "C19.axis", pk, nil, 700)
 			runMirrorClause(c, "C19.mirror", pk, 10)
 			runCeilClause(c, "C19.ceil-division", pk)
+			runPermutedClause(c, "C19.permuted-arms", pk)
 			runDirectionClause(c, "C19.direction", pk)
 			runTwinAssignClause(c, "C19.twin-assign", pk)
 			{
@@ -149,7 +159,7 @@ func init() {
 	register(&Prop{
 		ID: "C20", Title: "Connections start at their source and end at their destination",
 		Patterns:    []string{"./d2layouts/...", "./d2graph", "./lib/geo", "./lib/shape", "./lib/label"},
-		Explanation: "Decides: (1) provenance of stored routes — in both layout engines the route stored for an edge at the end of the per-edge loop is reached only after Edge.TraceToShape was applied to those points, and wherever a straight centre-to-centre route is created (nested and grid edge routing) it is traced before the function moves on; (2) axis consistency of the tracing arithmetic (d2graph/layout.go, lib/geo, lib/shape, lib/label); (3) the divert flags of TraceToShape do not leak from the source end to the destination end (rule of C27); (4) endpoint index agreement — code guarded by `e.Src == o` touches the first route point (or its neighbours), code guarded by `e.Dst == o` the last one, in both engines and in d2graph.",
+		Explanation: "Decides: (1) provenance of stored routes — in both layout engines the route stored for an edge at the end of the per-edge loop is reached only after Edge.TraceToShape was applied to those points, and wherever a straight centre-to-centre route is created (nested and grid edge routing) it is traced before the function moves on; (2) axis consistency of the tracing arithmetic (d2graph/layout.go, lib/geo, lib/shape, lib/label); (3) the divert flags of TraceToShape do not leak from the source end to the destination end (rule of C27); (2b) the same axis rule over the two engines' own route and endpoint adjustments (dagre, ELK); (4) endpoint index agreement — code guarded by `e.Src == o` touches the first route point (or its neighbours), code guarded by `e.Dst == o` the last one, in both engines and in d2graph.",
 		NotCovered:  geomNotCovered,
 		Technique:   "static analysis: must-pass-through on go/cfg, name-typed axis inference",
 		Run:         runC20,
@@ -172,7 +182,7 @@ func init() {
 	register(&Prop{
 		ID: "C22", Title: "Grid cells follow declaration order, align, keep gaps and never overlap",
 		Patterns:    []string{"./d2layouts/d2grid", "./d2graph"},
-		Explanation: "Decides: (1) axis consistency of the grid layout arithmetic (cursor advances, gaps, row/column extents); (2) monotone running bounds; (3) the cells are taken from the container's ChildrenArray (declaration order) and d2grid never sorts or re-orders them (no sort call on the cell list, no iteration over a map of cells); (4) mirrored arms — the short row/column arms of an if/else on a boolean switch (gd.rowDirected …) are consistent one-to-one renamings of each other, and a ceiling division (a + d - 1) / e divides by the d it added (the grid's capacity derivation).",
+		Explanation: "Decides: (1) axis consistency of the grid layout arithmetic (cursor advances, gaps, row/column extents); (2) monotone running bounds; (3) the cells are taken from the container's ChildrenArray (declaration order) and d2grid never sorts or re-orders them (no sort call on the cell list, no iteration over a map of cells); (4) mirrored arms — the short row/column arms of an if/else on a boolean switch (gd.rowDirected …) are consistent one-to-one renamings of each other, and a ceiling division (a + d - 1) / e divides by the d it added (the grid's capacity derivation); (5) permuted arms — when the two arms of a boolean switch consist of the same statements up to identifiers, a pair of steps where one sets a place and the other reads it is in the same order in both arms (layoutEvenly sizes a cell before it advances the cursor by the cell's height, in both directions).",
 		NotCovered:  geomNotCovered + "; the search for the best dynamic layout",
 		Technique:   "static analysis: name-typed axis inference, monotone-accumulator check, who-may-sort",
 		Run: func(c *core.Check) {
@@ -185,6 +195,7 @@ func init() {
 			noReorder(c, "C22.order", "d2layouts/d2grid", "gridDiagram", "objects", "ChildrenArray")
 			runMirrorClause(c, "C22.mirror", pk, 4)
 			runCeilClause(c, "C22.ceil-division", pk)
+			runPermutedClause(c, "C22.permuted-arms", pk)
 		},
 	})
 	register(&Prop{
@@ -532,6 +543,9 @@ func runC20(c *core.Check) {
 		return strings.Contains(c.P.Pos(fi.Decl.Pos()), "d2graph/layout.go")
 	}
 	runAxisClause(c, "C20.axis", pkgsMatching(c, relIn("d2graph", "lib/geo", "lib/shape", "lib/label")), onlyTrace, 300)
+	// the engines move shapes aside and back around the tracing of each route (label and 3d/multiple adjustments)
+	c.Rule("C20.axis-engines", "the engines' route and endpoint adjustments stay within one axis")
+	runAxisClause(c, "C20.axis-engines", pkgsMatching(c, relIn("d2layouts/d2dagrelayout", "d2layouts/d2elklayout")), nil, 100)
 	// flags
 	sub := core.NewSubCheck(c)
 	runC27(sub)
